@@ -174,6 +174,20 @@ def variant(rng, d, depth=0):
   d = copy.deepcopy(d)
   k = d['k']
   r = rng.random()
+  # A union and one of its candidates (or a spec and a union around it) are
+  # the same family, too.
+  if k == 'union' and depth == 0 and rng.random() < 0.15:
+    return variant(rng, rng.choice(d['cands']), depth) if rng.random() < 0.5 else (
+        copy.deepcopy(rng.choice(d['cands'])))
+  if k in PRIM_KINDS and depth == 0 and rng.random() < 0.1:
+    other = gen_spec(rng, 1, 2, [x for x in PRIM_KINDS if x != k])
+    if _union_type(d) is not None and _union_type(other) not in (None, _union_type(d)):
+      u = {'k': 'union', 'cands': [d, other] if rng.random() < 0.5 else [other, d]}
+      try:
+        build(u)
+        return u
+      except Exception:  # pylint: disable=broad-except
+        pass
   if k in ('int', 'float'):
     step = 1 if k == 'int' else rng.choice([0.5, 1, 1.0])
     for b in ('min', 'max'):
@@ -626,6 +640,9 @@ def why_rejected(spec, v, depth=0):
       return f'{n}.regex'
     return None
   if isinstance(spec, T.Enum):
+    vt = spec.value_type
+    if vt is not None and not isinstance(v, vt):
+      return f'{n}.type'
     try:
       return None if v in spec.values else f'{n}.enum-member'
     except Exception:  # pylint: disable=broad-except
@@ -686,12 +703,24 @@ def why_rejected(spec, v, depth=0):
       return f'{n}.type'
     return None
   if isinstance(spec, T.Union):
+    # Mirrors the documented order: the first candidate whose value type
+    # matches decides; then candidates without a value type (only a TypeError
+    # moves on to the next one); then convertible types.
     for c in spec.candidates:
       vt = c.value_type
       if vt is not None and isinstance(v, vt):
-        return 'Union.first-typed-candidate-rejects' if why_rejected(c, v, depth + 1) else None
+        r = why_rejected(c, v, depth + 1)
+        return f'Union.first-typed-candidate-rejects/{r}' if r else None
     for c in spec.candidates:
-      if why_rejected(c, v, depth + 1) is None:
-        return None
+      if c.value_type is None:
+        r = why_rejected(c, v, depth + 1)
+        if r is None:
+          return None
+        if not r.endswith('.type'):
+          return f'Union.untyped-candidate-rejects/{r}'
+    for c in spec.candidates:
+      if isinstance(c, T.Float) and isinstance(v, int):
+        r = why_rejected(c, v, depth + 1)
+        return f'Union.converted-candidate-rejects/{r}' if r else None
     return 'Union.no-candidate'
   return None
